@@ -1,7 +1,5 @@
 //! Two-way string matching on steroids.
 
-use std::cmp::max;
-
 use memchr_rs::memchr;
 
 const SIMD_THRESHOLD: usize = 16;
@@ -67,12 +65,14 @@ pub fn find(haystack: &str, needle: &str) -> Option<usize> {
         return None;
     }
 
-    let (crit, period) = crit_period(n);
+    let (crit, _period) = crit_period(n);
     let anchor = n[crit];
 
     let mut offset = 0;
 
-    while offset + nlen <= hlen {
+    // `offset` is where the anchor byte (at needle position `crit`) is searched next, so the
+    // last useful value is `hlen - nlen + crit`.
+    while offset + nlen <= hlen + crit {
         let index = memchr(anchor, h, offset);
         if index >= hlen {
             return None;
@@ -88,8 +88,9 @@ pub fn find(haystack: &str, needle: &str) -> Option<usize> {
             return Some(start);
         }
 
-        let shift = max(1, period);
-        offset = start.saturating_add(shift);
+        // Every candidate start has the anchor byte at `start + crit`; visiting the anchor
+        // occurrences in order therefore visits every candidate exactly once.
+        offset = index + 1;
     }
 
     None
@@ -101,8 +102,8 @@ fn maximal_suffix(x: &[u8], rev: bool) -> (usize, usize) {
     let (mut i, mut j, mut k, mut p) = (0, 1, 1, 1);
 
     while j + k <= n {
-        let ap = x[i + k];
-        let a = x[j + k];
+        let ap = x[i + k - 1];
+        let a = x[j + k - 1];
         if (a < ap && !rev) || (a > ap && rev) {
             j += k;
             k = 1;
